@@ -262,8 +262,10 @@ func runWorkers(bin string, ck *Check, tier, replay, dir string, n int, deadline
 				env = append(env, "VERIF_RACE=1", "GORACE=halt_on_error=0 log_path="+filepath.Join(dir, fmt.Sprintf("racelog-%d", i)))
 			}
 			cmd.Env = env
-			var buf bytes.Buffer
-			cmd.Stdout, cmd.Stderr = &buf, &buf
+			// what a worker prints is kept for crash reports only: its head and its tail (a chatty host under test
+			// printed tens of gigabytes in a long run, and the driver held all of it)
+			buf := &cappedLog{}
+			cmd.Stdout, cmd.Stderr = buf, buf
 			done := make(chan error, 1)
 			if err := cmd.Start(); err != nil {
 				res[i] = workerResult{crashed: true, log: err.Error()}
@@ -522,6 +524,43 @@ func runCheck(id, tier, replay string) int {
 		fmt.Println("note:", oneLine(n, 400))
 	}
 	return exit
+}
+
+// cappedLog keeps the first 256 kB and the last 2 MB of what is written to it.
+type cappedLog struct {
+	mu      sync.Mutex
+	head    []byte
+	tail    []byte
+	dropped int64
+}
+
+func (c *cappedLog) Write(p []byte) (int, error) {
+	c.mu.Lock()
+	defer c.mu.Unlock()
+	n := len(p)
+	if room := 256<<10 - len(c.head); room > 0 {
+		k := room
+		if k > len(p) {
+			k = len(p)
+		}
+		c.head = append(c.head, p[:k]...)
+		p = p[k:]
+	}
+	c.tail = append(c.tail, p...)
+	if over := len(c.tail) - 2<<20; over > 0 {
+		c.dropped += int64(over)
+		c.tail = append(c.tail[:0], c.tail[over:]...)
+	}
+	return n, nil
+}
+
+func (c *cappedLog) String() string {
+	c.mu.Lock()
+	defer c.mu.Unlock()
+	if c.dropped > 0 {
+		return string(c.head) + fmt.Sprintf("\n... %d bytes of worker output dropped ...\n", c.dropped) + string(c.tail)
+	}
+	return string(c.head) + string(c.tail)
 }
 
 func crashSig(log string) string {
